@@ -964,6 +964,63 @@ Definition c_dec_run := dec_run unit dval drefs unit cerr [] tt as_found cdes.
 Definition c_free_dec := cv_free_dec as_found.
 Definition c_dsessions_run := dsessions_run unit dval drefs unit cerr [] tt as_found cdes.
 
+(* ===================================================================================== *)
+(* 5. who holds a pooled object                                                          *)
+(* ===================================================================================== *)
+(* sync.Pool is a bag: Put accepts anything, also an object that is already in it.  Objects are
+   numbers; a user (a goroutine running a codec call) holds what Get gave it until it frees it.
+   The sections above describe WHAT a released coder looks like; this one, WHO may touch it:
+   exclusivity = every object is in the pool at most once and never both in the pool and held,
+   nor held by two users. *)
+Record ostate := mk_ostate {
+  o_pool : list nat;                 (* the bag, newest first *)
+  o_held : list (nat * nat);         (* (user, object) *)
+  o_next : nat                       (* next fresh object (New) *)
+}.
+Definition oinit : ostate := mk_ostate [] [] 0.
+
+Inductive oop :=
+| OGet (u : nat) (choice : option nat)   (* Get: None = New(), Some k = the k-th object of the bag *)
+| OFree (u : nat) (x : nat).             (* Put(x) by user u *)
+
+Fixpoint remove_held (u x : nat) (l : list (nat * nat)) : list (nat * nat) :=
+  match l with
+  | [] => []
+  | (u', x') :: r => if Nat.eqb u u' && Nat.eqb x x' then r else (u', x') :: remove_held u x r
+  end.
+
+Definition holds (st : ostate) (u x : nat) : bool :=
+  existsb (fun p => Nat.eqb u (fst p) && Nat.eqb x (snd p)) (o_held st).
+
+Definition ostep (st : ostate) (o : oop) : ostate :=
+  match o with
+  | OGet u choice =>
+      match (match choice with Some k => nth_error (o_pool st) k | None => None end), choice with
+      | Some x, Some k => mk_ostate (remove_nth k (o_pool st)) ((u, x) :: o_held st) (o_next st)
+      | _, _ => mk_ostate (o_pool st) ((u, o_next st) :: o_held st) (S (o_next st))
+      end
+  | OFree u x => mk_ostate (x :: o_pool st) (remove_held u x (o_held st)) (o_next st)
+  end.
+
+Fixpoint orun (st : ostate) (ops : list oop) : ostate :=
+  match ops with [] => st | o :: r => orun (ostep st o) r end.
+
+(* the discipline of the users (what the go/ast walk of the check establishes for every function that
+   calls Get*: one deferred Free* of exactly the object obtained, nothing else): a user only frees
+   what it holds -- and thereby stops holding it *)
+Fixpoint disciplined (st : ostate) (ops : list oop) : bool :=
+  match ops with
+  | [] => true
+  | o :: r => match o with OFree u x => holds st u x | OGet _ _ => true end && disciplined (ostep st o) r
+  end.
+
+Definition objects (st : ostate) : list nat := o_pool st ++ map snd (o_held st).
+
+Fixpoint nodupb (l : list nat) : bool :=
+  match l with [] => true | x :: r => negb (existsb (Nat.eqb x) r) && nodupb r end.
+
+Definition exclusive (st : ostate) : bool := nodupb (objects st).
+
 (* implicit type arguments for the generic part (declared last: this file spells them out) *)
 Arguments e_buf {RT CT ER WR}. Arguments e_off {RT CT ER WR}. Arguments e_simple {RT CT ER WR}.
 Arguments e_refer {RT CT ER WR}. Arguments e_cls {RT CT ER WR}. Arguments e_writer {RT CT ER WR}.
